@@ -256,6 +256,26 @@ func stringToMysqlTime(s string) (TimeValue, error) {
 	return v, nil
 }
 
+// stringToMysqlDate splits a text-protocol DATE (YYYY-MM-DD) into its fields without
+// judging whether it is a calendar date: the server decides which dates it stores
+func stringToMysqlDate(s string) (year, month, day int, ok bool) {
+	if len(s) != 10 || s[4] != '-' || s[7] != '-' {
+		return 0, 0, 0, false
+	}
+	for _, i := range []int{0, 1, 2, 3, 5, 6, 8, 9} {
+		if s[i] < '0' || s[i] > '9' {
+			return 0, 0, 0, false
+		}
+	}
+	year, _ = strconv.Atoi(s[0:4])
+	month, _ = strconv.Atoi(s[5:7])
+	day, _ = strconv.Atoi(s[8:10])
+	if month > 12 || day > 31 {
+		return 0, 0, 0, false
+	}
+	return year, month, day, true
+}
+
 func mysqlTimeToBinaryResult(v TimeValue) []byte {
 	var t []byte
 	var length uint8
